@@ -21,7 +21,7 @@ echo "RESULT $NAME demo_clean_exit=$CLEAN baseline_exit=$BASE baseline_66=$NPASS
 if [ "$CLEAN" != 0 ] || [ "$BASE" != 0 ] || [ "$MUT" = 0 ]; then echo "RESULT $NAME NOT-CONFIRMED"; exit 1; fi
 git -C /repo apply "$MD/patch.diff" || { echo "RESULT $NAME does-not-apply-to-repo"; exit 1; }
 CAUGHT=""
-for c in C01 C03 C04 C08 C10 C11 C12 C13 C16 C18 C19; do
+for c in ${CHECKS:-C01 C03 C04 C08 C10 C11 C12 C13 C16 C18 C19}; do
   out=$(cd /verif && ./bin/simcheck run "$c" --tier quick 2>&1); code=$?
   rules=$(echo "$out" | grep -oE "rule=[A-Za-z0-9.-]+" | sort -u | tr '\n' ' ')
   echo "  $c exit=$code $rules"
